@@ -22,6 +22,18 @@ pub fn run(c: &Ctx) {
     if c.tier == Tier::Thorough {
         crate::hsweep::history_sweep(c, 4, 304, 16, "integrity", |ops| run_ops(ops, &StepOpts { model_compare: false, api_view: false }));
     }
+    // arguments outside the documented domain: path arguments that are not valid UTF-8
+    for (desc, res, _same, bad) in crate::hsweep::odd_path_calls() {
+        c.eval(1);
+        c.nontrivial(fp(&("odd", &desc)));
+        c.class("non-utf8-path-argument");
+        let r = match (res, bad.first()) {
+            (Err(p), _) => Err(Failure::new("panic|non-utf8-path", format!("{}: {}", desc, p))),
+            (_, Some((cls, detail))) => Err(Failure::new(format!("integrity|{}|non-utf8-path", cls), format!("{}: {}", desc, detail))),
+            _ => Ok(()),
+        };
+        c.judge("odd", &json!(desc), r);
+    }
     let cfg2 = cfg_wild();
     let n2 = c.tier.pick(2_000, 40_000);
     run_proptest("ops", 302, || history(c.tier.pick(80, 200)), n2, |specs: &Vec<OpSpec>| check_history(c, specs, &cfg2, &OPTS, "ops"));
